@@ -16,7 +16,6 @@ type indexException struct{ fn, construct, reason string }
 
 // assumed-safe sites: one named function per line, with the reason (DESIGN §2.4.4)
 var indexExceptions = []indexException{
-	{"builtInFunctions.deleteRoles", "*", "the index is the position returned by the linear search doesRoleExist (found == true), so 0 <= index < len(roles.Roles)"},
 	{"(*data.BigIntCaster).MarshalTo", "P:buf[0]", "encoder contract: the generated marshaller sizes the buffer with Size() (>= 1 byte) before calling MarshalTo; Size/MarshalTo agreement is C14-R2"},
 }
 
